@@ -184,7 +184,9 @@ def omission_defaults(repo: Repo, rep, P: str, secs):
             if w.kind != "chunk" or not w.guards:
                 continue
             for gd in w.guards:
-                if any(gd == s for s, _ in STRUCTURAL_GUARDS) or gd.startswith("[n for n, c in"):
+                from ..guards import canon_text
+                cg = canon_text(gd)
+                if any(cg == canon_text(s) for s, _ in STRUCTURAL_GUARDS) or gd.startswith("[n for n, c in"):
                     continue
                 n += 1
                 wcon = f"{w.rel}:{w.fn}[{w.cid}]"
@@ -211,7 +213,8 @@ def _one_guard(repo, rep, P, wcon, w, ge, gd, defaults, secs, secname):
         eof = sv.methods.get("process_end_of_file")
         src = norm(eof) if eof else ""
         if "not mod or mod.in_link_slots" in src and "in_link_slots.append" in src:
-            ok_guard = norm(ge).replace(" ", "") == "any((snotin(-1,0)forsinmodule.in_link_slots))"
+            from ..guards import canon
+            ok_guard = canon(ge) == "exists_notin(module.in_link_slots;[-1, 0])"
             if ok_guard:
                 rep.ok(f"{P}.R4", wcon, gd, "omitted only when every slot is 0/-1; the reader rebuilds missing slots at end of file")
             else:
@@ -380,8 +383,9 @@ def none_safety(repo: Repo, rep, P: str, secs):
 
 # ----------------------------------------------------------------------------- R6
 def slot_terminators(repo: Repo, rep, P: str):
+    from .. import inline
     proj = repo.cls("Project", module="rv.project")
-    fn = repo.own_method(proj, "chunks")
+    fn = inline.flatten(repo, proj, repo.own_method(proj, "chunks"))
     rel = proj.file.rel
     construct = f"{rel}:Project.chunks"
     found = 0
@@ -423,9 +427,14 @@ def slot_terminators(repo: Repo, rep, P: str):
             rep.ok(f"{P}.R6", construct, f"for … in {it}", f"all {len(paths)} paths through one slot end in {term}")
     rep.count("slot_loops", found, 2)
     # the two loops appear in the order patterns, modules and iterate every slot
-    loops = [norm(s.iter) for s in fn.body if isinstance(s, ast.For)]
-    if loops == ["self.patterns", "enumerate(self.modules)"] or loops == ["self.patterns", "self.modules"]:
+    loops = [norm(s.iter) for s in fn.body if isinstance(s, ast.For) and ("self.patterns" in norm(s.iter) or "self.modules" in norm(s.iter))]
+    full = {"self.patterns": "P", "enumerate(self.patterns)": "P", "self.modules": "M", "enumerate(self.modules)": "M"}
+    kinds = [full.get(x) for x in loops]
+    if kinds == ["P", "M"]:
         rep.ok(f"{P}.R6", construct, "; ".join(loops), "all pattern slots, then all module slots")
+    elif None in kinds:
+        rep.inconclusive(f"{P}.R6", construct, "; ".join(loops), "a slot loop iterates something other than the complete slot list",
+                         f"{rel}:{fn.lineno}")
     else:
         rep.violation(f"{P}.R6", construct, "; ".join(loops), "the slot loops must iterate every pattern and then every module position",
                       f"{rel}:{fn.lineno}")
